@@ -460,7 +460,7 @@ func main() {
 	if !r.Quick() {
 		kinds = []string{"ec256", "ec384", "rsa2048restr", "rsapkcs3072", "rsapss2048", "rsapss3072"}
 	}
-	r.Rule("per key type: two devices registered through the real TO0 with each of 5 address-list shapes; then one deviation per run against the real TO1Server behind the real handler: every single-node alteration and every byte ^0x01 of HelloRV and ProveToRV, 7 foreign signers through the real TO1 client, another device's key/GUID, HelloRV naming another GUID, replay of a genuine ProveToRV, 6 clock positions around expiry (before HelloRV / between the two messages); and on the return path every (quick: every third) single-node alteration / byte flip of RVRedirect, re-signing by 3 foreign keys and substitution of another device's blob, each followed by the real TO2 with what TO1 returned. Oracles: 33 => reference predicate (token verifies under the registered voucher's device key for the UEID's GUID, nonce issued in this session, not expired); the released and the device-side to1d are byte-identical to what the owner registered and TO2 accepts it; an altered redirect that changes the signed value makes TO2 fail without credential and without sending ProveDevice. Layer R (real SQLite rendezvous store, clock seam in to0.go and sqlite.go): every history of up to 3 (thorough 4) events over {register device 0 with address a/1h, b/2h, c/30m; register device 1 with d/2h, e/20m; clock +45m, +100m, +30m-500ms, +30m+500ms (the clock starts at a fraction of a second, so the last two land just before and just after the exact expiry of a 30-minute registration, inside the same wall-clock second)} through the real TO0, followed by the real TO1 of both devices: TO1 succeeds exactly while the LATEST registration of that GUID is unexpired and releases exactly that registration's blob, signature intact.")
+	r.Rule("per key type: two devices registered through the real TO0 with each of 5 address-list shapes; then one deviation per run against the real TO1Server behind the real handler: every single-node alteration and every byte ^0x01 of HelloRV and ProveToRV, 7 foreign signers through the real TO1 client, another device's key/GUID, HelloRV naming another GUID, replay of a genuine ProveToRV, 6 clock positions around expiry (before HelloRV / between the two messages); and on the return path every (quick: every third) single-node alteration / byte flip of RVRedirect, re-signing by 3 foreign keys and substitution of another device's blob, each followed by the real TO2 with what TO1 returned. Oracles: 33 => reference predicate (token verifies under the registered voucher's device key for the UEID's GUID, nonce issued in this session, not expired); the released and the device-side to1d are byte-identical to what the owner registered and TO2 accepts it; an altered redirect that changes the signed value makes TO2 fail without credential and without sending ProveDevice. Layer R (real SQLite rendezvous store, clock seam in to0.go and sqlite.go): every history of up to 3 (thorough 4) events over {register device 0 with address a/1h, b/2h, c/30m; register device 1 with d/2h, e/20m; clock +45m, +100m, +30m-500ms, +30m+500ms (the clock starts at a fraction of a second, so the last two land just before and just after the exact expiry of a 30-minute registration, inside the same wall-clock second)} through the real TO0, followed by the real TO1 of both devices: TO1 succeeds exactly while the LATEST registration of that GUID is unexpired and releases exactly that registration's blob, signature intact; the same to depth 2 (3) with an AcceptVoucher policy that grants at most 40 minutes: reply and expiry follow the GRANTED time-to-live.")
 	var wg sync.WaitGroup
 	for _, kn := range kinds {
 		k := keys.KindByName(kn)
@@ -489,7 +489,8 @@ func main() {
 	if !r.Quick() {
 		regDepth = 4
 	}
-	sqliteRegistrations(regDepth)
+	sqliteRegistrations(regDepth, 0)
+	sqliteRegistrations(regDepth-1, 40*60) // the rendezvous server's policy grants at most 40 minutes
 	r.Sample(3, map[string]any{"layer": "sqlite-registrations", "history": []string{"reg(d0,b,2h)", "reg(d0,c,30m)", "clock+45m"}, "then": "TO1 of device 0 must fail, TO1 of device 1 must fail (never registered)"})
 	r.Sample(3, map[string]any{"class": "clock:expires-between-hello-and-prove"})
 	r.Sample(3, map[string]any{"class": "leaf33:str-flip-last", "path": "/0/3 (signature)"})
